@@ -776,9 +776,13 @@ class Processor:
                 compare_node = (all_anchors[parentref]
                                 if parentref in all_anchors
                                 else None)
+                # A YAML Merge Key reference is gathered as the Anchored
+                # Hash itself; anything else under the same name is merely
+                # a key which happens to be spelled like that Anchor.
                 is_ymk_anchor = (
                     compare_node is not None
-                    and isinstance(compare_node, dict))
+                    and isinstance(compare_node, dict)
+                    and node is compare_node)
 
                 if (is_ymk_anchor
                     and isinstance(parent, CommentedMap)
